@@ -20,6 +20,7 @@ mod localproc;
 mod md5;
 mod nodeenv;
 mod rpc;
+mod serde_rt;
 mod order;
 mod pid;
 mod term_json;
@@ -55,6 +56,7 @@ fn main() {
         "conn-send" => conn::run_send(rest),
         "conn-conc" => conn::run_conc(rest),
         "conn-recv" => conn::run_recv(rest),
+        "serde-rt" => serde_rt::run(rest),
         other => {
             eprintln!("unknown subcommand {other}");
             2
